@@ -19,6 +19,13 @@ CHECKS.update({
     "C19": ("DESIGN 4 C19", "Assignment sequences over size / initialized_size / contents with the size values symbolic over the full 64-bit range, constructor and loader rejection with symbolic sizes, block address / contains_offset / contains_address with every integer symbolic, block contents over bounded offsets; each sequence ends with a message-level save/load."),
 })
 
+CHECKS.update({
+    "C05": ("DESIGN 4 C05", "Block lookups at interval scope with two fully symbolic blocks, Optional interval address and symbolic range/stepped/point queries; edit histories (offset/size/discard/add/move/address edits with symbolic values) with index materialisation before every edit or never and ballast members that force the incremental-replay branch; must/may oracle at section, module and IR scope. Oracle: fresh linear scan of a plain model. Verdicts hold for every 64-bit value below 2^64-1."),
+    "C06": ("DESIGN 4 C06", "byte_intervals_on/at at three scopes, sections_on/at and Section.address/size over two intervals with symbolic Optional addresses and sizes, plus edit histories on the section index (address to/from None, size, discard, add, move) with ballast; oracle: fresh scan and the extent formula."),
+    "C12": ("DESIGN 4 C12", "One symbolic edit history replayed on two fresh copies, with lookups placed per every schedule of the shard and with none: final answers of every lookup must be equal. Ballast makes pending events smaller than, equal to and larger than the collection size; the branch taken by LazyIntervalTree.get is recorded in the evidence."),
+    "C13": ("DESIGN 4 C13", "symbolic_expressions_at / _at_offset after every sequence of mapping operations (keys concrete, because SortedDict hashes them) with the interval address, re-addressing and the query range symbolic; union with must/may at section, module and IR scope."),
+})
+
 NOT_APPLICABLE = {
 }
 
